@@ -144,3 +144,77 @@ Fixpoint outs_before_ins (evs : list fev) (seen_in : bool) : bool :=
   | (_, true, _) :: r => outs_before_ins r true
   | (_, false, _) :: r => negb seen_in && outs_before_ins r seen_in
   end.
+
+(* ------------------------------------------------------------------------------------ *)
+(* C15: which focus events one take_focus must produce                                   *)
+
+(* everything along the focus chain of the subtree [t] loses the focus: each focused window
+   on it is told OUT about itself, each notifying parent on it OUT about its child *)
+Fixpoint lost_events (t : wtree) : list fev :=
+  match t with
+  | Node i ch =>
+    (match w_fchild i with
+     | Some k =>
+       (fix go (l : list wtree) : list fev :=
+          match l with
+          | [] => []
+          | c :: r => if t_id c =? k then lost_events c else go r
+          end) ch ++ (if w_notify i then [(w_id i, false, k)] else [])
+     | None => []
+     end) ++ (if w_focused i then [(w_id i, false, w_id i)] else [])
+  end.
+
+(* [up] = [w; parent; ...; root]; [child] = the window the focus arrives from (None at w
+   itself).  Result: the OUT events and the IN events that must occur. *)
+Fixpoint focus_walk_spec (up : list wtree) (child : option Z) : list fev * list fev :=
+  match up with
+  | [] => ([], [])
+  | a :: rest =>
+    let i := t_info a in
+    let outs :=
+      (match w_fchild i with
+       | Some x =>
+         if (match child with Some c => c =? x | None => false end) then []
+         else (match kids_find x (t_kids a) with Some c => lost_events c | None => [] end)
+              ++ (if w_notify i then [(w_id i, false, x)] else [])
+       | None => []
+       end) ++
+      (match child with
+       | Some _ => if w_focused i then [(w_id i, false, w_id i)] else []
+       | None => []
+       end) in
+    let ins :=
+      match child with
+      | None => [(w_id i, true, w_id i)]
+      | Some c => if w_notify i then [(w_id i, true, c)] else []
+      end in
+    let '(o, n) :=
+      match rest with
+      | [] => ([], [])
+      | _ :: _ => if w_vis i then focus_walk_spec rest (Some (w_id i)) else ([], [])
+      end in
+    (outs ++ o, ins ++ n)
+  end.
+
+Definition focus_spec (t : wtree) (w : Z) : list fev * list fev :=
+  match t_chain w t with
+  | Some up => focus_walk_spec up None
+  | None => ([], [])
+  end.
+
+Definition fev_eqb (a b : fev) : bool :=
+  match a, b with
+  | (r1, d1, w1), (r2, d2, w2) => (r1 =? r2) && Bool.eqb d1 d2 && (w1 =? w2)
+  end.
+Definition fev_count (e : fev) (l : list fev) : nat := length (filter (fev_eqb e) l).
+Definition fev_same (l1 l2 : list fev) : bool :=
+  forallb (fun e => Nat.eqb (fev_count e l1) (fev_count e l2)) (l1 ++ l2).
+
+Definition is_in (e : fev) : bool := match e with (_, d, _) => d end.
+
+(* the observed events: every OUT before every IN, and exactly the demanded ones *)
+Definition c15_focus_checkb (t : wtree) (w : Z) (evs : list fev) : bool :=
+  let '(outs, ins) := focus_spec t w in
+  outs_before_ins evs false &&
+  fev_same (filter (fun e => negb (is_in e)) evs) outs &&
+  fev_same (filter is_in evs) ins.
